@@ -482,14 +482,17 @@ static void op_hmac_oneshot(vin_t *in, vout_t *o, int kind) {
 	int alg = vin_u8(in) % NALG;
 	unsigned kalign = vin_u8(in) & 63, malign = vin_u8(in) & 63;
 	uint8_t pat = vin_u8(in);
-	int ba = vin_u8(in), nullsz = vin_u8(in);
+	int ba = vin_u8(in), nullsz = vin_u8(in), nullp;
 	size_t kn, n, osz, rsz = (size_t)-1;
 	const uint8_t *key = vin_blob(in, &kn), *msg = vin_blob(in, &n);
 	void *kbase, *mbase; const uint8_t *kp, *mp; uint8_t *out;
 	if (in->bad) { vout_u8(o, 2); return; }
+	nullp = (nullsz >> 1) & 1; nullsz &= 1; /* bit 1: an empty key / message is passed as (NULL, 0) */
 	osz = (kind == OP_HMAC_HEX) ? hsz[alg] * 2 + 1 : hsz[alg];
 	kp = place(key, kn, kalign, &kbase);
 	mp = place(msg, n, malign, &mbase);
+	if (nullp && kn == 0) kp = NULL;
+	if (nullp && n == 0) mp = NULL;
 	out = out_alloc(osz);
 	vdrv_dirty_stack(pat);
 	switch (kind) {
